@@ -81,7 +81,7 @@ func hostileALPN(r *kernel.Run, srv *World, registered *Ident) ([]string, string
 			cur = n
 		}
 		st, _ := structpb.NewStruct(deep)
-		sb, _ := proto.Marshal(st)
+		sb := detMarshal(st)
 		g := &types.GenerateServerCertificatesRequest{CertificatePublicKeyPkix: tp.Bytes(tp.Range(0, 100)), Nonce: tp.Bytes(32), NonceSignature: tp.Bytes(64), ClientState: sb, ClientStateSignature: tp.Bytes(64), CommonName: strings.Repeat("x", tp.Range(0, 3000)), NodeId: strings.Repeat("n", tp.Range(0, 300)), SkipVerification: tp.Draw(2) == 0}
 		b, _ := proto.Marshal(g)
 		b = append(b, 0xf8, 0x7f, 0x01) // unknown field
